@@ -679,7 +679,7 @@ func maxPerField(m map[string]int) int {
 // ---------------------------------------------------------------- streams
 
 func (d *driver) blockStreams(thorough bool) {
-	nB, nU, nP, nA, nW, nHeavy := 120, 150, 90, 60, 16, 1
+	nB, nU, nP, nA, nW, nHeavy := 100, 120, 70, 50, 12, 1
 	if thorough {
 		nB, nU, nP, nA, nW, nHeavy = 1200, 2000, 900, 600, 120, 12
 	}
@@ -690,7 +690,9 @@ func (d *driver) blockStreams(thorough bool) {
 	d.blockCase("block-boundary", [][]string{{d.fill(255)}, {d.fill(256), d.fill(257)}}, 3)
 	d.blockCase("block-boundary", [][]string{{"a"}, {}, {"b"}}, 1)
 	if thorough {
-		d.blockCase("block-boundary-64k", [][]string{{"x", d.fill(65535)}, {d.fill(65536)}, {d.fill(65537), "y"}}, 1)
+		d.blockCase("block-boundary-64k", [][]string{{"x", d.fill(65535)}}, 1)
+		d.blockCase("block-boundary-64k", [][]string{{"x"}, {d.fill(65536), "y"}}, 5)
+		d.blockCase("block-boundary-64k", [][]string{{d.fill(65537)}}, 1)
 	}
 	for i := 0; i < nB; i++ {
 		d.long = i%6 == 0
